@@ -70,6 +70,7 @@ impl FixtureDatabase {
 
     /// Scan a workspace directory for test files and conftest.py files.
     /// Optionally accepts exclude patterns from configuration.
+    #[allow(dead_code)] // Public library API; the binary always scans with exclude patterns
     pub fn scan_workspace(&self, root_path: &Path) {
         self.scan_workspace_with_excludes(root_path, &[]);
     }
